@@ -735,3 +735,25 @@ Proof.
     destruct (get_language_for_name cfg name) as [pl|e1|k]; [destruct cur1 as [[l s]|]| |]; discriminate. }
   destruct (poedit_phase cfg pls pcs cur1) as [[d3 cur2]|e0|k] eqn:Ep; cbn [obind]; [discriminate|exfalso; exact (Hp _ eq_refl)|discriminate].
 Qed.
+
+(* cli.main(): -l names the locale normalised in the same way *)
+Theorem cli_language_spec cfg s l : cli_language cfg s = Ok l <-> locale_of cfg s = Some l.
+Proof.
+  unfold cli_language, locale_of, normalised.
+  destruct (parse_language s) as [l0|e|k]; cbn [obind]; [|split; discriminate|split; discriminate].
+  destruct (fix_codes cfg l0) as [[l1 b]|e|k]; cbn [obind fst]; [|split; discriminate|split; discriminate].
+  rewrite strip_eq. split; intros H; inversion H; reflexivity.
+Qed.
+
+(* ... and `invalid language` (ap.error) is the only other outcome *)
+Theorem cli_language_rejects cfg s : (exists e, cli_language cfg s = Err e) <-> locale_of cfg s = None.
+Proof.
+  unfold cli_language, locale_of, normalised.
+  destruct (parse_language s) as [l0|e0|k] eqn:Ep; cbn [obind].
+  - destruct (fix_codes cfg l0) as [[l1 b]|e1|k] eqn:Ef; cbn [obind fst].
+    + split; [intros [e H]; discriminate|discriminate].
+    + split; [reflexivity|eauto].
+    + exfalso. exact (fix_codes_no_crash _ _ _ Ef).
+  - split; [reflexivity|eauto].
+  - exfalso. exact (parse_no_crash _ _ Ep).
+Qed.
